@@ -16,12 +16,13 @@ INIT_BOUNDS = {"r1": (-5, 10), "r2": (0, 7), "r3": (-3, 4)}
 # bounds profiles (the property does not restrict the bounds a knocked-out reaction had) and the history by which
 # the model reached its initial state (fresh, or via operations that rebuild the gene <-> reaction links)
 PROFILES = {"A": dict(INIT_BOUNDS), "B": {"r1": (-10, -2), "r2": (2, 7), "r3": (3, 3)}}
-ORIGINS = ("fresh", "restored", "readded", "copy", "pickle")
+ORIGINS = ("fresh", "restored", "readded", "copy", "pickle", "edited", "renamed", "rxn_copied")
 
 
 def variants(tier):
     if tier == "quick":
-        return [("A", "fresh"), ("A", "restored"), ("B", "fresh"), ("B", "copy")]
+        return [("A", "fresh"), ("A", "restored"), ("B", "fresh"), ("B", "copy"), ("A", "edited"), ("A", "renamed"),
+                ("B", "rxn_copied")]
     return [(p, o) for p in PROFILES for o in ORIGINS]
 
 
@@ -59,8 +60,46 @@ def rule_family(tier):
     return out
 
 
+def _prime(m):
+    """Use every rule once (knock every gene out inside a rolled-back context, read reaction.functional) so that
+    anything the library derives from a rule on first use exists before the rule is edited in place."""
+    for g in list(m.genes):
+        with m:
+            g.knock_out()
+            [r.functional for r in m.reactions]
+    [r.functional for r in m.reactions]
+
+
 def build(tree, origin="fresh"):
+    if origin == "edited":
+        # r1 starts as '(<rule>) or gX' (r2 as 'g2 or g3 or gX'), every rule is used once, then gX is removed from the
+        # model: remove_genes rewrites the rules in place and the model must behave like a fresh one
+        from cobra.manipulation import remove_genes
+
+        m = _build(tree, r1_rule="(%s) or gX" % ref_gpr.render(tree), r2_rule="g2 or g3 or gX")
+        _prime(m)
+        remove_genes(m, ["gX"], remove_reactions=False)
+        return m
+    if origin == "renamed":
+        # the same model spelled with other gene ids, used once, then renamed to g1..gN in one call
+        from cobra.manipulation.modify import rename_genes
+
+        names = sorted(ref_gpr.genes(tree) | {"g2", "g3"})
+        alias = {g: "h" + g[1:] + "x" for g in names}
+        text = ref_gpr.render(tree)
+        import re
+
+        m = _build(tree, r1_rule=re.sub(r"\bg(\d)\b", r"h\1x", text), r2_rule="h2x or h3x")
+        _prime(m)
+        rename_genes(m, {v: k for k, v in alias.items()})
+        return m
     m = _build(tree)
+    if origin == "rxn_copied":
+        # reactions of the model were copied / combined before (Reaction.copy, +, *): pure observers of the model
+        for r in list(m.reactions):
+            r.copy()
+        m.reactions.r1 + m.reactions.r2
+        m.reactions.r3 * 2
     if origin == "restored":
         # every reaction removed inside a context that is rolled back
         with m:
@@ -79,7 +118,7 @@ def build(tree, origin="fresh"):
     return m
 
 
-def _build(tree):
+def _build(tree, r1_rule=None, r2_rule="g2 or g3"):
     from cobra import Metabolite, Model, Reaction
 
     m = Model("ko")
@@ -92,8 +131,8 @@ def _build(tree):
     r3.add_metabolites({A: -1})
     for r in (r1, r2, r3):
         r.bounds = INIT_BOUNDS[r.id]
-    r1.gene_reaction_rule = ref_gpr.render(tree)
-    r2.gene_reaction_rule = "g2 or g3"
+    r1.gene_reaction_rule = r1_rule or ref_gpr.render(tree)
+    r2.gene_reaction_rule = r2_rule
     m.add_reactions([r1, r2, r3])
     return m
 
